@@ -85,6 +85,10 @@ BRcDom(img, b) ==
 NoHdr == [ver |-> 0, cb |-> 0, ro |-> 0, vsz |-> 0, vszb |-> 0, l1c |-> 0, l1ua |-> 1, l1n |-> 0,
           rtc |-> 0, rtua |-> 1, rtn |-> 0, crypt |-> 0, inc |-> 0, snap |-> 0, back |-> 0,
           hlen |-> 0, comp |-> 0]
+BPtrDom(img, b) ==
+  IF BKind(img, b) = "m"
+  THEN LET pk == Defs[img[b][2]].pk IN { pk[k] : k \in 1 .. Len(pk) }
+  ELSE {}
 BHdr(img) == IF BKind(img, 0) = "h" THEN Defs[img[0][2]].h ELSE NoHdr
 
 F == INSTANCE Qcow2Format
@@ -331,6 +335,12 @@ SeeNew(cs, newcur, S) ==
                                IF b \in S THEN x.seen[b] \cup newcur[b] ELSE x.seen[b]]]
     ELSE x : x \in cs }
 
+\* Discards act on whole clusters, which couples the order on the blocks of a
+\* cluster: the clusters whose order may have to be decided together with the
+\* clusters CS are those reachable through discards in flight
+Grow(CS) == CS \cup UNION { ClustersOf(d.todo) : d \in { x \in calls : x.op = "discard" /\ ClustersOf(x.todo) \cap CS # {} } }
+Coupled(CS) == Grow(Grow(Grow(CS)))
+
 \* silent: another call in flight takes effect on blocks of the call that is
 \* about to return (linearization points are normalised to sit immediately
 \* before a Ret)
@@ -339,7 +349,7 @@ LinOther ==
   /\ LET c0 == CallById(Ev.id) IN
      \E c \in calls :
        /\ c.id # c0.id /\ Mutating(c.op)
-       /\ LET ov == c.todo \cap c0.blocks
+       /\ LET ov == { b \in c.todo : b \div G.bpc \in Coupled(ClustersOf(c0.blocks)) }
               \* writes: any non-empty subset of the common blocks; discards act
               \* on whole clusters: any non-empty set of the clusters they share
               cand_sets ==
@@ -469,7 +479,7 @@ CrashSets ==
   ELSE SmallSubsets(RelPairs) \cup { RelPairs \ s : s \in SmallSubsets(RelPairs) }
 
 CrashPoint ==
-  /\ CrashOn /\ ~crashed /\ l <= N
+  /\ CrashOn /\ ~crashed /\ l <= N /\ R0.lenient = 0
   /\ \/ Ev.e \in {"End", "Drop"}
      \/ Ev.e = "Done" /\ ReqById(Ev.id).k = "S" /\ ReqById(Ev.id).dev = 0 /\ Ev.res = "ok"
 
@@ -679,7 +689,8 @@ C05Bad == { gb \in GBs : ~(Unknown \in sync.val[gb]
 \* specification disagree - a tool error, never a violation
 InitialOK ==
   (l = ri + 1 /\ ~crashed /\ R0.src = "build" /\ R0.lenient = 0) =>
-     /\ F!WellFormed(vis, G) /\ F!Exact(vis, G)
+     /\ F!WellFormed(vis, G)
+     /\ F!Undercounted(vis, G) = {} /\ Cardinality(F!Leaked(vis, G)) = R0.leaks
      /\ \A gb \in GBs : GuestVis(gb) = R0.init[gb + 1]
 
 \* violations found in the state just reached; they are accumulated along the
